@@ -1173,6 +1173,7 @@ def mon_C10_me(case):
     out = []
     bg = {s: v["bg"] for s, v in case.sess.items()}
     faulted = False
+    offmuted = set()       # (user, topic) muted through a session which was not attached
     phantom = set()        # topics with a subscription left behind by a request which was refused (reported by C08: [partial-write:newgrp] and the like)
     for i, (o, ln) in enumerate(zip(case.ops, case.lines)):
         w = o.split(" ")
@@ -1183,6 +1184,19 @@ def mon_C10_me(case):
         if ln.plain is not None:
             continue
         pre = prev_state(case, i)
+        if w[0] == "restart":
+            offmuted.clear()
+        if w[0] == "setsub" and len(w) > 2 and pre is not None and w[2] not in pre.sess.get(w[1], set()):
+            # a subscription muted through a session which is not attached to the topic: the row is written behind the back of the
+            # loaded topic and of the user's `me` (C08 [offline-set]); nothing tells `me` to stop listening
+            for t0 in (w[2],):
+                a0, b0 = pre.store.get(t0), ln.store.get(t0)
+                act0 = case.actor(w)
+                if a0 and b0 and act0:
+                    for key in ("subs", "csubs"):
+                        ra, rb = a0[key].get(act0[0]), b0[key].get(act0[0])
+                        if ra and rb and has(eff(ra["want"], ra["given"]), "P") and not has(eff(rb["want"], rb["given"]), "P"):
+                            offmuted.add((act0[0], t0))
         if w[0] in ("sub", "newgrp") and len(w) > 1 and pre is not None:
             codes = [int(f.split(" ")[1]) for sid, f in ln.frames + ln.meframes if sid == w[1] and f.startswith("ctrl ")]
             if not codes or min(codes) >= 300:
@@ -1228,7 +1242,7 @@ def mon_C10_me(case):
             if not modes:
                 out.append((i, f"C10 [{'me-on-en:removed' if enby else 'me-removed'}] `{fw[0]} {what}` about {src} delivered on `me` to {sid} of {u} whose subscription is deleted"))
             elif not any(has(m, "P") for m in modes):
-                tag = "me-on-en:muted" if enby else f"me-muted:{what}"
+                tag = "me-on-en:muted" if enby else (f"me-muted-offline:{what}" if (u, topic) in offmuted else f"me-muted:{what}")
                 out.append((i, f"C10 [{tag}] `{fw[0]} {what}` about {src} delivered on `me` to {sid} of {u} whose permissions {modes} lack presence"))
             elif not any(has(g, "J") for g in givens):
                 # banned = the topic's managers took J away; a user who dropped J from the own request has left of the own accord
